@@ -1,6 +1,6 @@
 SPECIFICATION TraceSpec
 CONSTANTS Kinds = {"buf", "hmeta", "reply", "rawdata", "stream", "outlocal", "outremote", "iterfile", "geninfo", "metabuf", "cxxref", "bare"}
-  NH = 4 NObj = 8 Max = 1000 MaxExtra = 3 AsFound = FALSE
+  NH = 4 NObj = 8 Max = 1000 MaxExtra = 3 MaxTries = 1000 AsFound = FALSE
 INVARIANTS TypeOK AliveIffReferenced CountExact NoDangling
 POSTCONDITION TraceAccepted
 CHECK_DEADLOCK FALSE
